@@ -82,12 +82,18 @@ sec6.append("Outside the claims (recorded in the notes, not findings): re-using 
 sec8 = ["## 8. Seeded changes: which check catches which change\n",
         "Each change was written by a fresh sub-agent that saw only the property text and a scratch worktree (nothing from /verif), "
         "breaks that property while all 60 tests pass, and was confirmed by the coordinator in another scratch worktree "
-        "(`harness/seedtool.py verify`: demo passes without, tests pass with, demo fails with). Round 1 = ids `Cxx`, `Cxxb` "
-        "(available to the builders while tuning); round 2 = ids `Cxxc`, `Cxxd`, first run BLIND against the finished checks "
-        "(31 of 40 caught), after which the harnesses were strengthened generically (history-sensitivity phases, optional "
-        "parameters, fan-out queries, empty reference targets). `result_*.json` beside each patch is the latest run "
-        "(`seedtool.py run <id>`: patch applied in a scratch worktree, `./check` pointed at it through `VERIF_REPO`).\n",
-        "| seed | property | change (what it needs to manifest) | quick tier | thorough tier |", "|---|---|---|---|---|"]
+        "(`harness/seedtool.py verify`: demo passes without, tests pass with, demo fails with). Five rounds of 40 (two per property): "
+        "round 1 (ids `Cxx`, `Cxxb`) was available to the builders while they tuned their checks; rounds 2-5 (`c/d`, `e/f`, `g/h`, `i/j`) were "
+        "each first run BLIND against the checks as they stood, then used to strengthen the generators *generically* (never by "
+        "special-casing a patch): blind detection 31/40, 26/40, 32/40 (29 with a concrete replay), 31/40 (30 concrete; two seeded "
+        "changes made the implementation loop forever and hung the check, which led to the watchdog of section 4). The classes of "
+        "input each blind round showed to be missing are the lessons (a)-(s) of `AGENT_BRIEF.md`: history sensitivity / state leaking "
+        "between calls, optional parameters, fresh string objects, sizes past 256, falsy-but-legal values, related arguments, dropped "
+        "references, mutable return values, document-first generation, element-name-keyed code paths, deep positions, parser "
+        "tolerances, non-termination, type-confusable values, side effects of refused operations, producers mutating their argument. "
+        "One seed (C03h) edits the rule table itself and is not a violation of C03 as stated. `result_*.json` beside each patch is "
+        "the latest run (`seedtool.py run <id>`: patch applied in a scratch worktree, `./check` pointed at it through `VERIF_REPO`).\n",
+        "| seed | property | change (what it needs to manifest) | first (blind) run | latest quick run | latest thorough run |", "|---|---|---|---|---|---|"]
 nseeds = 0
 for d in sorted(glob.glob(os.path.join(V, "seeded", "*"))):
     mf = os.path.join(d, "meta.json")
@@ -110,7 +116,17 @@ for d in sorted(glob.glob(os.path.join(V, "seeded", "*"))):
         summ = summ[:257] + "…"
     if len(needs) > 200:
         needs = needs[:197] + "…"
-    sec8.append(f"| {os.path.basename(d)} | {m.get('property')} | {summ} — *needs:* {needs} | {res('quick')} | {res('thorough')} |".replace("\n", " "))
+    blind = "tuned (round 1)"
+    for rf in sorted(glob.glob(os.path.join(d, "result_blind_round*.json"))):
+        r = json.load(open(rf))
+        if r.get("caught"):
+            blind = "caught, concrete" if r.get("concrete_replay") else "caught (no-failing-input-found)"
+        else:
+            blind = "MISSED" + (" (check hung)" if "did not terminate" in str(r.get("note", "")) else "")
+    note = m.get("coordinator_note")
+    if note:
+        blind += " — not a violation of the property as stated (see meta.json)"
+    sec8.append(f"| {os.path.basename(d)} | {m.get('property')} | {summ} — *needs:* {needs} | {blind} | {res('quick')} | {res('thorough')} |".replace("\n", " "))
 sec8.append("")
 
 # ---- section 9: sizes
